@@ -233,3 +233,64 @@ Proof.
       apply existsb_exists. exists (a, l). split; auto. cbn [fst]. rewrite N.eqb_sym. exact Ea. }
     destruct (filter _ is); [contradiction | discriminate].
 Qed.
+
+(* ------------------------------------------------------------------ the model reproduces A-23 / A-24 *)
+Lemma wellformed_strings w B is :
+  wellformed_gen w B -> decode (p_bytecode B) = Some is ->
+  forallb (fun pi => string_ok w (p_data B) (snd pi)) is = true.
+Proof.
+  intros (is' & Hd & _ & _ & _ & Hs & _) Hd'. rewrite Hd in Hd'. injection Hd' as ->.
+  apply forallb_forall. intros [p i] Hin. cbn [snd]. unfold string_ok.
+  destruct (str_operand i) as [off|] eqn:E; auto.
+  destruct (Hs p i off Hin E) as [s ->]. reflexivity.
+Qed.
+
+Lemma trace_complete_check_complete B : trace_complete B -> trace_complete_check B = true.
+Proof.
+  unfold trace_complete, trace_complete_check, untraced. intros H.
+  destruct (decode (p_bytecode B)) as [is|] eqn:Hd; [|reflexivity].
+  destruct (filter _ is) as [|[p i] r] eqn:Ef; [reflexivity|]. exfalso.
+  assert (Hin : In (p, i) (filter (fun pi => needs_trace (snd pi)
+                   && negb (mem_N (N.of_nat (fst pi)) (map fst (p_trace B)))) is))
+    by (rewrite Ef; left; reflexivity).
+  apply filter_In in Hin. destruct Hin as [Hin Hc]. cbn [fst snd] in Hc.
+  apply andb_true_iff in Hc. destruct Hc as [Hn Hm]. apply negb_true_iff in Hm.
+  destruct (H is p i eq_refl Hin Hn) as [l Hl].
+  assert (mem_N (N.of_nat p) (map fst (p_trace B)) = true); [|congruence].
+  unfold mem_N. apply existsb_exists. exists (N.of_nat p). split; [|apply N.eqb_refl].
+  apply in_map_iff. exists (N.of_nat p, l). split; auto.
+Qed.
+
+Definition default_options : options := {| o_recursion_limit := 64; o_debug := true |}.
+Definition main_module (cards : list card) : module :=
+  Module [] [(s_main, {| f_args := []; f_cards := cards |})] [].
+
+(* A-23: `main = [StringLiteral("L" x 253)]` compiles; the result is well-formed except that
+   read_str's window cannot read the literal back *)
+Definition a23_module : module := main_module [CStringLiteral (repeat 76%N 253)].
+Lemma a23_witness :
+  exists B, compile a23_module default_options = COk B /\ wellformed_gen false B /\ ~ wellformed B.
+Proof.
+  destruct (compile a23_module default_options) as [B| | |] eqn:E; try (vm_compute in E; discriminate).
+  exists B. split; [reflexivity|]. split.
+  - apply wf_check_gen_sound. vm_compute in E. injection E as <-. vm_compute. reflexivity.
+  - intros Hw. destruct (decode (p_bytecode B)) as [is|] eqn:Hd.
+    + pose proof (wellformed_strings true B is Hw Hd) as Hs.
+      vm_compute in E. injection E as <-. vm_compute in Hd. injection Hd as <-.
+      vm_compute in Hs. discriminate.
+    + destruct Hw as (is' & Hd' & _). congruence.
+Qed.
+
+(* A-24: `main = [SetVar x := 1; Closure([], [ReadVar x])]` - x is captured, so scope_end emits
+   CloseUpvalue, which gets no trace entry *)
+Definition a24_module : module :=
+  main_module [CSetVar [120%N] (CScalarInt 1); CClosure [] [CReadVar [120%N]]].
+Lemma a24_witness :
+  exists B, compile a24_module default_options = COk B /\ wellformed B /\ ~ trace_complete B.
+Proof.
+  destruct (compile a24_module default_options) as [B| | |] eqn:E; try (vm_compute in E; discriminate).
+  exists B. split; [reflexivity|]. split.
+  - apply wf_check_sound. vm_compute in E. injection E as <-. vm_compute. reflexivity.
+  - intros Ht. apply trace_complete_check_complete in Ht.
+    vm_compute in E. injection E as <-. vm_compute in Ht. discriminate.
+Qed.
